@@ -672,7 +672,7 @@ func init() {
 			}
 		}})
 
-	register(&Rule{ID: "C13.R8", Props: []string{"C13", "C14"}, Min: 8, Needs: NeedMain,
+	register(&Rule{ID: "C13.R8", Props: []string{"C13", "C14", "C15"}, Min: 8, Needs: NeedMain,
 		Doc: "one membership key: every lookup, insert and delete on a selector's membership map uses the same key function of the endpoint (HashKey()), so that what Add records is what Remove erases and what the duplicate test sees",
 		Run: func(r *R) {
 			for sp, nts := range selectorTypes(r.w) {
